@@ -148,6 +148,14 @@ func (table *Table) Encode() []byte {
 		total = 14
 	}
 
+	// The mark glyph sets table reaches its coverage tables via 32-bit
+	// offsets: it comes first and the coverage tables last, so that the
+	// 16-bit offsets in the header stay as small as possible.
+	var markGlyphSetsDefOffset int
+	if table.MarkGlyphSets != nil {
+		markGlyphSetsDefOffset = total
+		total += 4 + 4*len(table.MarkGlyphSets)
+	}
 	var glyphClassDefOffset int
 	if table.GlyphClass != nil {
 		glyphClassDefOffset = total
@@ -158,14 +166,10 @@ func (table *Table) Encode() []byte {
 		markAttachClassDefOffset = total
 		total += table.MarkAttachClass.AppendLen()
 	}
-	var markGlyphSetsDefOffset int
-	if table.MarkGlyphSets != nil {
-		markGlyphSetsDefOffset = total
-		total += 4 + 4*len(table.MarkGlyphSets)
-		for _, set := range table.MarkGlyphSets {
-			cov := set.ToTable()
-			total += cov.EncodeLen()
-		}
+	coverageOffset := total
+	for _, set := range table.MarkGlyphSets {
+		cov := set.ToTable()
+		total += cov.EncodeLen()
 	}
 
 	if glyphClassDefOffset > 0xFFFF || markAttachClassDefOffset > 0xFFFF || markGlyphSetsDefOffset > 0xFFFF {
@@ -185,28 +189,28 @@ func (table *Table) Encode() []byte {
 	if version >= 0x00010002 {
 		buf = append(buf, byte(markGlyphSetsDefOffset>>8), byte(markGlyphSetsDefOffset))
 	}
-	if glyphClassDefOffset > 0 {
-		buf = table.GlyphClass.Append(buf)
-	}
-	if markAttachClassDefOffset > 0 {
-		buf = table.MarkAttachClass.Append(buf)
-	}
 	if markGlyphSetsDefOffset > 0 {
 		markGlyphSetCount := len(table.MarkGlyphSets)
 		buf = append(buf,
 			0, 1, // format
 			byte(markGlyphSetCount>>8), byte(markGlyphSetCount))
-		offs := 4 + 4*markGlyphSetCount
+		offs := coverageOffset - markGlyphSetsDefOffset
 		for _, set := range table.MarkGlyphSets {
 			buf = append(buf,
 				byte(offs>>24), byte(offs>>16), byte(offs>>8), byte(offs))
 			cov := set.ToTable()
 			offs += cov.EncodeLen()
 		}
-		for _, set := range table.MarkGlyphSets {
-			cov := set.ToTable()
-			buf = append(buf, cov.Encode()...)
-		}
+	}
+	if glyphClassDefOffset > 0 {
+		buf = table.GlyphClass.Append(buf)
+	}
+	if markAttachClassDefOffset > 0 {
+		buf = table.MarkAttachClass.Append(buf)
+	}
+	for _, set := range table.MarkGlyphSets {
+		cov := set.ToTable()
+		buf = append(buf, cov.Encode()...)
 	}
 	return buf
 }
